@@ -29,9 +29,10 @@ SeqsUpTo(S, n) == IF n = 0 THEN {<<>>} ELSE LET P == SeqsUpTo(S, n - 1) IN P \cu
 
 NoMut == [f |-> "none", b |-> 0, v |-> 0]
 FileMuts(g) ==
-  {[f |-> n, b |-> 0, v |-> 0] : n \in {"hmagic", "hnull", "hcrc", "idxCrc", "fcrc", "fnull", "fmagic"}}
+  {[f |-> n, b |-> 0, v |-> 0] : n \in {"hmagic", "hcrc", "idxCrc", "fcrc", "fmagic"}}
+  \cup {[f |-> n, b |-> 0, v |-> v] : n \in {"hnull", "fnull"}, v \in {1, 2, 4, 8, 16, 32, 64, 128}}   \* each bit of the reserved first flags byte
   \cup {[f |-> "idxPad", b |-> 0, v |-> v] : v \in 1..4}            \* four concrete ways of being non-zero
-  \cup {[f |-> n, b |-> 0, v |-> v] : n \in {"hres", "fres", "bothres"}, v \in {1, 8}}   \* reserved nibble of the flags byte
+  \cup {[f |-> n, b |-> 0, v |-> v] : n \in {"hres", "fres", "bothres"}, v \in {1, 2, 4, 8}}   \* reserved nibble of the flags byte
   \cup {[f |-> "hcheck", b |-> 0, v |-> c] : c \in {0, 1, 4} \ {g.check}}
   \cup {[f |-> "fcheck", b |-> 0, v |-> c] : c \in {0, 1, 4, 10} \ {g.check}}
   \cup {[f |-> "idxN", b |-> 0, v |-> v] : v \in {g.idxN + 1} \cup (IF g.idxN > 0 THEN {g.idxN - 1} ELSE {})}
@@ -39,7 +40,8 @@ FileMuts(g) ==
   \cup {[f |-> "trailing", b |-> 0, v |-> v] : v \in {1, 4}}
 BlockMuts(g, i) ==
   LET b == g.blocks[i] IN
-  {[f |-> n, b |-> i, v |-> 0] : n \in {"reserved", "bhcrc"}}
+  {[f |-> "bhcrc", b |-> i, v |-> 0]}
+  \cup {[f |-> "reserved", b |-> i, v |-> v] : v \in {4, 8, 16, 32, 60}}      \* each reserved bit of the block flags, and all
   \cup {[f |-> n, b |-> i, v |-> v] : n \in {"hpad", "bpad"}, v \in 1..4}
   \cup (IF g.check \in {1, 4} THEN {[f |-> "check", b |-> i, v |-> 0]} ELSE {})
   \* 289 = 0x121; 1000001.. are symbolic for ids beyond 32 bits whose low bits equal 0x21 (the harness writes
